@@ -141,9 +141,9 @@ PROPS = {
         trusted=M2_TRUST + CONC_TRUST,
     ),
     "C05": dict(
-        modules=[P + "C05"],
+        modules=[P + "C05", "Ldlm.Pins.C05"],
         theorems=[P + "C05." + t for t in ("reachable_inv", "unlock_truthful", "unlock_truthful_at_quiescence", "renew_truthful", "renew_after_fire_says_false", "held_only_decreases")]
-                 + ["Ldlm.Lease.step_inv", "Ldlm.Pins.pin_TimerReset"],
+                 + ["Ldlm.Lease.step_inv", "Ldlm.Pins.C05.pin_TimerReset"],
         streams=[CONC],
         level_text="M3a models one leased hold with any number of concurrent Unlock and Renew threads and the lease callback, one step per call into a manager, for EVERY schedule: an Unlock that answered unlocked=true implies the hold is out of the table or the callback stands right before its own lockMgr.Unlock; at quiescence it implies the hold is gone; a Renew answers locked=true only for a live hold with an armed lease, which stays armed; nothing puts the hold back. Proved by an inductive invariant over all schedules. The model follows the repaired TimerMap.Reset (one critical section; pinned to its source text). Tied to the code by exhaustive (preemption-bounded) + random exploration of Unlock || Renew || Renew || expiry on the instrumented real server, before and exactly at the deadline, with truth monitors and probes at quiescence and at the lease horizon.",
         level_note="One hold in isolation is justified by key uniqueness and timer-key injectivity (C07). Session end racing with Renew is C06's territory (armed timer for a dead hold between D2 and D3, recorded under K2). The tie is outcome monitoring on explored schedules; per-action trace validation against M3a is planned. D7 was found by this check and repaired (fix: e566dad). time.Timer Stop/Reset semantics (Go >= 1.23) are modelled.",
@@ -151,9 +151,9 @@ PROPS = {
         trusted=CONC_TRUST,
     ),
     "C06": dict(
-        modules=[P + "C06"],
+        modules=[P + "C06", "Ldlm.Pins.C06"],
         theorems=[P + "C06." + t for t in ("reachable_inv", "destroy_releases_partial", "released_once", "late_grant_leaks", "timer_for_dead_hold")]
-                 + ["Ldlm.SessionEnd.step_inv", "Ldlm.SessionEnd.run_clean_back", "Ldlm.Pins.pin_DestroySession"],
+                 + ["Ldlm.SessionEnd.step_inv", "Ldlm.SessionEnd.run_clean_back", "Ldlm.Pins.C06.pin_DestroySession"],
         status={P + "C06.destroy_releases_partial": "partial (hypothesis Clean: no grant of the hold in flight when the session entry is deleted)",
                 P + "C06.late_grant_leaks": "refutation witness (K2)", P + "C06.timer_for_dead_hold": "refutation witness (K2, second window)"},
         streams=[CONC],
@@ -163,10 +163,10 @@ PROPS = {
         trusted=CONC_TRUST,
     ),
     "C09": dict(
-        modules=[P + "C09"],
+        modules=[P + "C09", "Ldlm.Pins.C09"],
         theorems=[P + "C09." + t for t in ("step_inv", "reachable_inv", "always_loadable", "table_image_decodes", "empty_image_loads", "acked_consistent_partial",
                                           "file_matches_bookkeeping", "crash_in_truncate_window", "crash_overcapacity_file")]
-                 + ["Ldlm.Pins.pin_StoreWrite"],
+                 + ["Ldlm.Pins.C09.pin_StoreWrite"],
         status={P + "C09.acked_consistent_partial": "partial (hypothesis: the kill is not between Truncate(0) and Write)",
                 P + "C09.crash_in_truncate_window": "refutation witness (K3)", P + "C09.crash_overcapacity_file": "refutation witness (K4)"},
         streams=[CONC, SEQ],
@@ -200,11 +200,11 @@ PROPS = {
         trusted=M4_TRUST + M2_TRUST,
     ),
     "C20": dict(
-        modules=[P + "C20"],
+        modules=[P + "C20", "Ldlm.Pins.C20"],
         theorems=[P + "C20." + t for t in ("bad_cookie_refused", "valid_cookie_accepted", "survives_short_gaps", "idle_session_gone", "expired_sessions_ended", "ends_exactly_once", "delete_ends",
                                           "conc_reachable", "conc_ends_once", "conc_ended_when_quiet", "conc_no_late_service", "conc_no_crash", "conc_refused_after_end", "conc_deadlock_free")]
                  + ["Ldlm.RestConc.step_inv", "Ldlm.RestConc.progress", "Ldlm.Rest.rstep_inv", "Ldlm.Rest.radv_prompt", "Ldlm.Rest.radv_keeps_later"]
-                 + ["Ldlm.Pins.pin_" + t for t in ("ValidateSession", "RestDestroySession", "RestCreateSession", "RestOnTimeout", "ServeHTTP", "TimerAdd", "TimerRemove", "TimerReset")],
+                 + ["Ldlm.Pins.C20.pin_" + t for t in ("ValidateSession", "RestDestroySession", "RestCreateSession", "RestOnTimeout", "ServeHTTP", "TimerAdd", "TimerRemove", "TimerReset")],
         status={},
         streams=[RESTMODEL, REST, RESTCONC],
         level_text="Sequential semantics (M4): a request with a missing/unknown/ended cookie answers 401 and changes nothing; a valid one is accepted and re-arms the deadline to now+timeout; a session whose deadline lies after the target survives any clock advance unchanged (so requests less than a timeout apart keep it valid for ever); after an advance no session with a deadline <= the clock is left; for EVERY history each cookie gets at most one connection-end, exactly one iff created and no longer valid, none while valid (inductive invariant, cookie freshness assumed injective). Races (M4c): one step per lock acquisition of rest.go/timermap.go (function bodies pinned to the source text by rfl), any number of sessions, requests, DELETEs, timer callbacks, any schedule: 10-clause invariant proved inductive; consequences: 0/1 connection-end per session, exactly 1 once quiet without entry, no request served after connection-end, ValidateSession never dereferences a missing entry, requests after the end are refused, and deadlock freedom (some thread can always step while any is unfinished or a lock is held). Tied to the code by restmodel (M4 vs real gateway, time steps to deadline-1ns/deadline/deadline+1ns), the sequential monitor stream (refusals have no effect, ConnEnd count) and controlled interleavings of request/DELETE/idle-callback on the instrumented gateway (no deadlock, no panic, exactly one ConnEnd, no hold left).",
@@ -213,13 +213,13 @@ PROPS = {
         trusted=M4_TRUST + CONC_TRUST,
     ),
     "C19": dict(
-        modules=[P + "C19"],
+        modules=[P + "C19", "Ldlm.Pins.C19"],
         theorems=[P + "C19." + t for t in ("interval_below_timeout", "interval_too_long", "rules_pinned", "all_rpcs_retried", "keeps_alive", "advance_only_good_renews", "unlock_leaves_others",
                                           "unlock_removes_renewer", "second_hold_same_name_panics", "retry_at_most", "retry_only_on_unavailable", "retry_result_is_last", "retry_other_error_final",
                                           "retry_unavailable_within_budget", "retry_unavailable_over_budget", "no_renew_after_return", "no_panic_from_race", "rpc_after_exit", "stop_never_stuck",
                                           "old_stop_misses_busy_renewer")]
                  + ["Ldlm.Client.cadv_alive", "Ldlm.Client.cstep_fine", "Ldlm.ClientConc.step_inv"]
-                 + ["Ldlm.Pins.pin_" + t for t in ("RenewerStart", "RenewerStop", "ClientUnlock", "ClientClose", "ClientRenew", "MaybeCreateRenewer", "MaybeRemoveRenewer", "RpcWithRetry")],
+                 + ["Ldlm.Pins.C19.pin_" + t for t in ("RenewerStart", "RenewerStop", "ClientUnlock", "ClientClose", "ClientRenew", "MaybeCreateRenewer", "MaybeRemoveRenewer", "RpcWithRetry")],
         status={P + "C19.second_hold_same_name_panics": "states the code's behaviour K19a (known finding): several holds of one counting lock are NOT handled",
                 P + "C19.old_stop_misses_busy_renewer": "refutation witness for the Stop before repair 9e742fe",
 },
@@ -253,9 +253,9 @@ PROPS = {
         trusted=M2_TRUST,
     ),
     "C11": dict(
-        modules=[P + "C11"],
+        modules=[P + "C11", "Ldlm.Pins.C11"],
         theorems=[P + "C11." + t for t in ("order_pinned", "shutdown_keeps_file", "shutdown_waiters_error", "shutdown_then_start_restores", "old_order_loses_holds")]
-                 + ["Ldlm.Pins.pin_DestroySession"],
+                 + ["Ldlm.Pins.C11.pin_DestroySession"],
         status={P + "C11.old_order_loses_holds": "refutation witness for the original closer order (D11, repaired)"},
         streams=[STACK],
         level_text="Over M2 with the closer sequence of cmd/server/main.go AS EXTRACTED from the source on every run: the state file after shutdown equals the file before, every blocked Lock completes with an error and none with a hold, nothing stays blocked, and the next start loads the same table - proved for every state. The original order (network closer before the shutdown flag) is refuted by a kernel-checked witness. Exit status 0, termination within 10 s, no panic and the restored holds are OBSERVED on the real binary (SIGINT/SIGTERM at several workload points, gRPC + REST clients, blocked waiters), not proved.",
@@ -288,10 +288,10 @@ PROPS = {
         trusted=M2_TRUST + STACK_TRUST,
     ),
     "C16": dict(
-        modules=[P + "C16"],
+        modules=[P + "C16", "Ldlm.Pins.C16"],
         theorems=[P + "C16." + t for t in ("rest_auth_sound", "rest_auth_complete", "rest_auth_off", "grpc_auth_iff", "auth_first_on_rest", "auth_installed_iff_password",
                                           "grpc_methods", "rest_routes", "tls_verify_enforced", "tls_cert_never_plaintext", "tls_verify_without_cert_refuses", "tls_key_alone_is_plaintext")]
-                 + ["Ldlm.Pins.pin_ValidatePassword", "Ldlm.Pins.pin_AuthInterceptor", "Ldlm.Pins.pin_ServeHTTP", "Ldlm.Pins.pin_GetTLSConfig"],
+                 + ["Ldlm.Pins.C16.pin_ValidatePassword", "Ldlm.Pins.C16.pin_AuthInterceptor", "Ldlm.Pins.C16.pin_ServeHTTP", "Ldlm.Pins.C16.pin_GetTLSConfig"],
         streams=[STACK],
         level_text="The two authentication decisions and the TLS decision are stated outright and proved for all inputs (REST: accepted iff the credential after the first colon of the decoded Basic token equals the password; gRPC: first authorization value equals it; TLS: all 64 rows - verification/CA requested => error or TLS requiring client certs, certificate => never plaintext). The models are pinned to the source text of the four functions and to regenerated structural facts (password check first on every REST path incl. /session, interceptor installed iff password, all four RPCs unary). Enforcement on the wire is exercised by the stack stream: all 2^5 configurations on the real binary, every credential shape on every RPC and route, plaintext and certificate-less probes.",
         level_note="PARTIAL: handshake enforcement is crypto/tls + grpc credentials (trusted); strings.Split and base64 are parameters (Go stdlib trusted). A key without a certificate is read by the code as 'TLS not configured' and served in plaintext: stated as a theorem so it is visible, reported as a note by the stack stream, not counted as a violation (the property's trigger is 'TLS configured' = certificate). Trusted: Lean kernel, facts extractor.",
@@ -299,9 +299,9 @@ PROPS = {
         trusted=STACK_TRUST,
     ),
     "C18": dict(
-        modules=[P + "C18"],
+        modules=[P + "C18", "Ldlm.Pins.C18"],
         theorems=[P + "C18." + t for t in ("ipc_unlock_by_key_equiv", "ipc_unlock_by_name_picks_listed", "ipc_unlock_by_name_equiv", "ipc_unlock_absent", "ipc_list_exact", "unlock_ignores_session")]
-                 + ["Ldlm.Pins.pin_IpcUnlock"],
+                 + ["Ldlm.Pins.C18.pin_IpcUnlock"],
         streams=[STACK, SEQ],
         level_text="In M2 the admin unlock with a key is proved to be exactly the holder's own Unlock (same transition, same answer) for every state; with a name alone it is the Unlock of a listed hold of that name; with no such hold it answers LockDoesNotExist and changes nothing; the listing is exact by C08. IPC.Unlock is pinned to its source text. Tied to the code by the real ldlm-lock binary against the real server after random gRPC/REST histories (list output, unlock by name / name+key, follow-up TryLock, state file) and by seqdiff with in-process IPC calls.",
         level_note="The code picks the LAST listed hold of a name in Go map order; the model admits any listed hold and the tie reports which one was picked. D5 (admin unlock always failed) was found by this check and repaired (fix: 52c429e). Trusted: Lean kernel, net/rpc (exercised), hand-written M2.",
